@@ -21,3 +21,34 @@ STANDARD_SCALARS = {
     "Boolean": "GraphQLBoolean",
     "ID": "GraphQLID",
 }
+
+GRAPHQL_IMPORTS = (
+    "DirectiveLocation",
+    "GraphQLArgument",
+    "GraphQLDirective",
+    "GraphQLEnumType",
+    "GraphQLEnumValue",
+    "GraphQLField",
+    "GraphQLInputField",
+    "GraphQLInputObjectType",
+    "GraphQLInterfaceType",
+    "GraphQLList",
+    "GraphQLNamedType",
+    "GraphQLNonNull",
+    "GraphQLObjectType",
+    "GraphQLScalarType",
+    "GraphQLSchema",
+    "GraphQLUnionType",
+    "GraphQLID",
+    "GraphQLInt",
+    "GraphQLFloat",
+    "GraphQLString",
+    "GraphQLBoolean",
+    "Undefined",
+)
+TYPE_MAP_IMPORTS = ("TypeMap",)
+TYPING_IMPORTS = ("cast", "List")
+
+# Names bound by the imports of the generated schema module: a variable of the
+# module with one of these names would shadow the import it relies on.
+RESERVED_VARIABLE_NAMES = frozenset(GRAPHQL_IMPORTS + TYPE_MAP_IMPORTS + TYPING_IMPORTS)
